@@ -128,11 +128,8 @@ def constructed_by(elem, v, r, path="$", depth=0, doc=None):
                 return "%s: class %s does not carry its declared property %r" % (path, elem.__name__, name)
             if src not in v or (name != src and name in v):        # omitted (C05's subject) / K13 collision
                 continue
-            try:
-                if any(re.search(pt, src) for pt in pats):
-                    continue
-            except re.error:
-                continue
+            # (a declared member that a patternProperties regex also matches is built by AllOf(declared, *patterns): the FIRST member's,
+            #  i.e. the declared element's, construction - so it is checked like any other declared member)
             try:
                 attr = getattr(r, name)
             except AttributeError:
@@ -205,6 +202,19 @@ TEMPLATES.append(
      [[{"title": "width", "description": "how wide it is", "default": 0, "required": ["a"], "const": 1, "enum": [1], "additionalProperties": False}],
       [{"title": "t", "properties": {"x": 1}, "patternProperties": None, "minProperties": 5, "inline": True, "annotation": "x", "python": 3}],
       [{"__doc__": "d", "__class__": "c", "__module__": "m", "__name__": "n", "validators": [], "type_validator": 0}]]))
+
+
+TEMPLATES.append(
+    ({"classes": {"Child": {"k": "Obj", "name": "Child", "base": None, "doc": None, "kw": {},
+                            "props": {"class_": {"e": {"k": "Integer", "kw": {}}, "required": False, "source": "class"},
+                                      "size": {"e": {"k": "Integer", "kw": {"default": 7}}, "required": False, "source": None}}},
+                  "Measurement": {"k": "Obj", "name": "Measurement", "base": None, "doc": None,
+                                  "kw": {"patternProperties": {"^val": {"k": "Element", "kw": {"minimum": 0}}, "^c": {"k": "Element", "kw": {"minProperties": 1}}}},
+                                  "props": {"value": {"e": {"k": "Number", "kw": {}}, "required": False, "source": None},
+                                            "child": {"e": {"k": "Ref", "name": "Child"}, "required": False, "source": None},
+                                            "children": {"e": {"k": "Array", "items": {"k": "Ref", "name": "Child"}, "kw": {}}, "required": False, "source": None}}}},
+      "order": ["Child", "Measurement"], "root": {"k": "Ref", "name": "Measurement"}},
+     [{"value": 3}, {"value": 3, "child": {"class": 1, "k": None}, "children": [{"class": 2}]}, {"child": {"class": 1}}, {"valid": 2, "value": 0}]))
 
 
 def run(tier, seed, replay=None):
